@@ -182,6 +182,29 @@ def run_c03(res, tier, seed):
                 new_texts = list(texts)
                 new_texts[k] = render_tokens(toks[:i] + toks[i + 1:])
                 cases.append((items, texts, new_texts, k, [f"delete {toks[i]!r} at {i}", f"a definition nested {d} deep stands behind the victim"]))
+    # the victim is nested just below a round number (where a nesting limit would sit) and the damage adds one or two levels; the definition
+    # behind it begins with an attribute, `opaque`, or `pub` (whatever gives up on the victim must stop at the victim's end)
+    for lim in ((64, 256, 1024) if tier == "quick" else (32, 64, 100, 128, 200, 256, 500, 512, 1000, 1024, 2048)):
+        for (o, c) in [(["!"], []), (["-"], []), (["["], ["]"]), (["#", "("], [")"]), (["{"], ["}"])]:
+            for below in (1, 2):
+                d = lim - below
+                vic = ("N", "FUNCTION", [("T", t) for t in ["pub", "fn", "deepv", "(", "v", ")", "{"] + o * d + ["v"] + c * d + ["}"]])
+                nxt_toks = rng.choice([["@", "external", "(", "erlang", ",", '"m"', ",", '"f"', ")", "pub", "fn", "after", "(", ")", "{", "1", "}"],
+                                       ["@", "target", "(", "erlang", ")", "fn", "after", "(", ")", "{", "1", "}"],
+                                       ["pub", "fn", "after", "(", ")", "{", "1", "}"]])
+                nxt = ("N", "FUNCTION", [("T", t) for t in nxt_toks])
+                before = build_file(rng, 1)
+                items = before + [vic, nxt]
+                k = len(before)
+                texts = [render_tokens(gen_gleam.tokens(it)) for it in items]
+                toks = gen_gleam.tokens(items[k])
+                lo = toks.index("{") + 1
+                hi = len(toks) - 1          # the closing brace of the body
+                for extra in (1, 2):
+                    # (balanced: a level is added with its opener AND its closer - an unclosed opener legitimately takes what follows)
+                    new_texts = list(texts)
+                    new_texts[k] = render_tokens(toks[:lo] + o * extra + toks[lo:hi] + c * extra + toks[hi:])
+                    cases.append((items, texts, new_texts, k, [f"insert {extra} level(s) {' '.join(o)!r} .. {' '.join(c)!r}", f"the victim is nested {d} deep, the next definition begins with {nxt_toks[0]!r}"]))
     # the recorded findings' own inputs, replayed on every run (a finding that stops failing stops being printed)
     for f in common.known_findings().get("findings", []):
         ex = (f.get("example") or {}).get("input") or {}
